@@ -159,8 +159,8 @@ def _calc_free_traits(limits, allocs, old_id):
         for trait in alloc['traits']:
             if trait in free:
                 free[trait]['cpu'] -= utils.cpu_units(alloc['cpu'])
-                free[trait]['disk'] -= utils.size_to_bytes(alloc['cpu'])
-                free[trait]['memory'] -= utils.size_to_bytes(alloc['cpu'])
+                free[trait]['disk'] -= utils.size_to_bytes(alloc['disk'])
+                free[trait]['memory'] -= utils.size_to_bytes(alloc['memory'])
 
     return free
 
